@@ -405,3 +405,230 @@ func TestRandomConversations(t *testing.T) {
 		t.Fatalf("infra: %v", e)
 	}
 }
+
+// ---------------------------------------------------------------------------------
+// floods of complete connections: many short conversations on one listener. Every
+// connection makes the listener queue replies (SYN-ACK, acknowledgements, its FIN, the port
+// handler's output); behind a transmit path that does not get rid of them as fast as they
+// are queued (a socketpair cannot send at all, an interface under load only sometimes)
+// the transmit ring and the state table carry the history of all earlier connections.
+
+type connFlood struct {
+	Tables string     `json:"tables"`
+	Conns  int        `json:"conns"`
+	Batch  int        `json:"batch"` // connections opened together: their frames interleave
+	Dport  uint16     `json:"dport"`
+	Script []convStep `json:"script"` // after the full handshake, the same for every connection
+	Note   string     `json:"note,omitempty"`
+}
+
+func runConnFlood(l cl.Local, c connFlood, wait time.Duration) (verdict error, infra error) {
+	cfg, err := tables(c.Tables, l)
+	if err != nil {
+		return nil, err
+	}
+	if c.Batch < 1 || c.Conns < 1 || c.Conns > 60000 {
+		return nil, fmt.Errorf("bad connection flood %s", vlib.JSON(c))
+	}
+	ch, err := cl.StartChild()
+	if err != nil {
+		return nil, err
+	}
+	defer ch.Kill()
+	k, err := ch.New(cfg)
+	if err != nil {
+		return nil, fmt.Errorf("cannot create canary: %v", err)
+	}
+	type conn struct {
+		sport     uint16
+		isn, next uint32
+		iss       uint32
+	}
+	frame := func(cn *conn, f cl.TCPFields) []byte {
+		f.Sport, f.Dport, f.DataOff = cn.sport, c.Dport, -1
+		return l.TCPFrame(peer, f)
+	}
+	// a step that cannot be delivered or a barrier that is never reached ends the
+	// history; the probe decides
+	ok := func(e error) bool { return e == nil && !k.Stalled() && !ch.Dead() }
+play:
+	for base := 0; base < c.Conns; base += c.Batch {
+		n := c.Batch
+		if base+n > c.Conns {
+			n = c.Conns - base
+		}
+		conns := make([]*conn, n)
+		var fr [][]byte
+		for i := range conns {
+			cn := &conn{sport: uint16(1024 + base + i), isn: uint32(base+i)*7919 + 1}
+			cn.next = cn.isn + 1
+			conns[i] = cn
+			fr = append(fr, frame(cn, cl.TCPFields{Seq: cn.isn, Flags: cl.SYN, Options: []byte{2, 4, 5, 0xb4}}))
+		}
+		if !ok(k.SendMany(fr)) || !ok(k.Drained()) {
+			break play
+		}
+		fr = fr[:0]
+		for i, cn := range conns {
+			// the loop may still be handling the last SYN it took: ask again for a moment
+			for try := 0; ; try++ {
+				v, _, found, err := k.ConnState(peer.IP, cn.sport, l.IP, c.Dport)
+				if err != nil {
+					break play
+				}
+				if found {
+					cn.iss = v
+				}
+				if found || i < len(conns)-1 || try >= 50 {
+					break
+				}
+				time.Sleep(time.Millisecond)
+			}
+			fr = append(fr, frame(cn, cl.TCPFields{Seq: cn.next, Ack: cn.iss + 2, Flags: cl.ACK}))
+		}
+		if !ok(k.SendMany(fr)) || !ok(k.Drained()) {
+			break play
+		}
+		for _, st := range c.Script {
+			fr = fr[:0]
+			for _, cn := range conns {
+				f := cl.TCPFields{Seq: cn.next + uint32(st.SeqOff), Ack: cn.iss + 2 + uint32(st.AckOff), Flags: st.Flags}
+				if st.Len > 0 {
+					f.Payload = pad(st.Len, byte(st.Len))
+				}
+				fr = append(fr, frame(cn, f))
+				if st.SeqOff == 0 {
+					cn.next += uint32(st.Len)
+					if st.Flags&cl.FIN != 0 {
+						cn.next++
+					}
+				}
+			}
+			if !ok(k.SendMany(fr)) {
+				break play
+			}
+			if !st.NoRest && !ok(k.Drained()) {
+				break play
+			}
+		}
+	}
+	return feed(l, ch, k, nil, wait), nil
+}
+
+func genConnFlood(rt *rapid.T) connFlood {
+	c := connFlood{
+		Tables: rapid.SampledFrom([]string{"arp", "arp", "gateway", "gateway-noarp", "noroute", "empty"}).Draw(rt, "tables"),
+		// around what the 65,535-byte transmit ring holds in header-only replies (1,170), and beyond
+		Conns: rapid.SampledFrom([]int{40, 400, 1170, 1500, 2500, 4000}).Draw(rt, "connections"),
+		Batch: rapid.SampledFrom([]int{1, 16, 64, 256}).Draw(rt, "batch"),
+		Dport: rapid.SampledFrom([]uint16{8080, 8080, 80, 23, 6379, 1}).Draw(rt, "dport"),
+	}
+	if c.Batch == 1 && c.Conns > 1500 {
+		c.Batch = 16
+	}
+	p := rapid.SampledFrom(prefixes).Draw(rt, "prefix")
+	c.Note = p.name
+	fin := false
+	last := 0
+	for _, s := range p.steps {
+		c.Script = append(c.Script, s)
+		fin = fin || s.Flags&cl.FIN != 0
+		last = s.Len
+	}
+	for n := rapid.IntRange(0, 2).Draw(rt, "continuations"); n > 0; n-- {
+		a := rapid.SampledFrom(continuations).Draw(rt, "continuation")
+		st := a.mk(fin, last)
+		st.NoRest = rapid.Bool().Draw(rt, "no-rest")
+		if st.Flags&cl.FIN != 0 && st.SeqOff == 0 {
+			fin = true
+		}
+		if st.SeqOff == 0 && st.Len > 0 {
+			last = st.Len
+		}
+		c.Script = append(c.Script, st)
+		c.Note += "," + a.name
+	}
+	return c
+}
+
+// checkConnFlood: a failure counts when it happens again on a fresh listener.
+func checkConnFlood(r *vlib.Run, l cl.Local, c connFlood) (error, error) {
+	e1, infra := runConnFlood(l, c, 10*time.Second)
+	if infra != nil || e1 == nil {
+		return nil, infra
+	}
+	e2, infra := runConnFlood(l, c, 10*time.Second)
+	if infra != nil {
+		return nil, infra
+	}
+	if e2 == nil {
+		r.Flaky(fmt.Sprintf("C02 connection flood failed once and passed on re-run: %v", e1))
+		return nil, nil
+	}
+	return fmt.Errorf("after %d complete connections (%s) to port %d: %v", c.Conns, c.Note, c.Dport, e2), nil
+}
+
+const floodRule = "floods of complete connections: 40..4,000 connections (the transmit ring holds 1,170 header-only replies) from one peer with tables {arp, gateway, gateway-noarp, noroute, empty}, opened 1/16/64/256 at a time (frames of a batch interleave), each a full handshake (the peer reads the listener's sequence number through the hook) + a prefix {nothing, pushed data, unpushed data, FIN, data+FIN, orderly close} + 0..2 continuation classes, the next step sent when the loop has taken the previous one or at once, to decoded and undecoded ports; every prefix also as a fixed 3,000-connection flood; then the probe. non-trivial = >= 40 connections completed their handshake; distinct by (tables, connections, batch, port, script)"
+
+func TestConnectionFloods(t *testing.T) {
+	r := vlib.Open(prop)
+	var rc connFlood
+	if vlib.ReplayCase("TestConnectionFloods", &rc) {
+		l := env(t)
+		e, infra := checkConnFlood(r, l, rc)
+		if infra != nil {
+			t.Fatalf("infra: %v", infra)
+		}
+		if e != nil {
+			r.Violation(t, "TestConnectionFloods", rc, e.Error())
+		}
+		return
+	}
+	if vlib.Replaying() {
+		return
+	}
+	l := env(t)
+	r.Rule(ruleText)
+	r.Rule(floodRule)
+	si, sn := r.Shard()
+	reported := false
+	try := func(c connFlood, kind string) error {
+		if reported {
+			return nil
+		}
+		r.Case("connflood/"+kind+"/"+c.Tables, vlib.JSON(c), func() interface{} { return c })
+		t0 := time.Now()
+		e, infra := checkConnFlood(r, l, c)
+		if infra != nil {
+			return infra
+		}
+		r.Note("flood of %d complete connections (%s, %s, batch %d) + probe took %.1fs", c.Conns, c.Note, c.Tables, c.Batch, time.Since(t0).Seconds())
+		if e != nil {
+			reported = true
+			r.Violation(t, "TestConnectionFloods", c, e.Error())
+		}
+		return nil
+	}
+	// fixed: every prefix class as a flood well beyond the transmit ring's capacity
+	for i, p := range prefixes {
+		if (i+5)%sn != si { // the SYN floods occupy the low shards
+			continue
+		}
+		if err := try(connFlood{Tables: "arp", Conns: r.Pick(3000, 8000), Batch: 64, Dport: 8080, Script: p.steps, Note: p.name}, "fixed"); err != nil {
+			t.Fatalf("infra: %v", err)
+		}
+	}
+	box := &cl.Infra{}
+	r.Rapid(t, "TestConnectionFloods", r.Pick(3, 16), func(rt *rapid.T) {
+		if box.Err() != nil || reported {
+			rapid.Bool().Draw(rt, "skipped")
+			return
+		}
+		if err := try(genConnFlood(rt), "drawn"); err != nil {
+			box.Set(err)
+		}
+	})
+	if e := box.Err(); e != nil {
+		t.Fatalf("infra: %v", e)
+	}
+}
